@@ -87,6 +87,52 @@ pub fn gen(stream: &str, tier: &str, seed: u64) -> Vec<String> {
                     }
                 }
             }
+            // TRUNCATION LOOKALIKES: characters whose code point equals a syntax character modulo 256
+            // (U+012B ≡ '+', U+0123 ≡ '#', U+012F ≡ '/', U+0124 ≡ '$', U+0100 ≡ NUL) or modulo 65,536
+            // (U+1002B …): an implementation that compares `c as u8` / `c as u16` confuses them
+            let look: [&str; 14] = ["/", "+", "#", "$", "a", "\u{12b}", "\u{123}", "\u{12f}", "\u{124}", "\u{100}", "\u{1002b}", "\u{10023}", "\u{1002f}", "\u{10000}"];
+            let lmax = if thorough { 4 } else { 3 };
+            for len in 1..=lmax {
+                let total = (look.len() as u64).pow(len as u32);
+                for mut k in 0..total {
+                    let mut st = String::new();
+                    for _ in 0..len {
+                        st.push_str(look[(k % look.len() as u64) as usize]);
+                        k /= look.len() as u64;
+                    }
+                    if !st.is_ascii() {
+                        out.push(format!("{} {}", op, hex(st.as_bytes())));
+                    }
+                }
+            }
+            // every way of replacing characters of "$share/" (and "$SYS/") by their lookalikes, with the
+            // suffix shapes that distinguish shared from ordinary filters
+            for base in ["$share/", "$SYS/"] {
+                let chars: Vec<char> = base.chars().collect();
+                for off in [0x100u32, 0x4e00, 0x10000] {
+                    for mask in 1u32..(1 << chars.len()) {
+                        // all single and double replacements, and the full replacement
+                        if mask.count_ones() > 2 && mask != (1 << chars.len()) - 1 {
+                            continue;
+                        }
+                        let pre: String = chars.iter().enumerate().map(|(i, c)| if mask & (1 << i) != 0 { char::from_u32(*c as u32 + off).unwrap() } else { *c }).collect();
+                        for suf in ["", "+", "x", "g", "g/f", "g/+", "g/#", "/x", "g/", "#", "+/x", "g/a/b"] {
+                            out.push(format!("{} {}", op, hex(format!("{}{}", pre, suf).as_bytes())));
+                        }
+                    }
+                }
+            }
+            // long strings whose length in BYTES, in CHARS and in UTF-16 units differ, around the limits an
+            // implementation might apply in the wrong unit (32,767 / 32,768 / 65,535)
+            for (unit, per) in [("a", 1usize), ("é", 2), ("你", 3), ("😀", 4)] {
+                for chars in [16_383usize, 16_384, 21_845, 21_846, 32_767, 32_768, 40_000, 65_535] {
+                    if chars * per <= 65_540 {
+                        let body = unit.repeat(chars);
+                        out.push(format!("{} {}", op, hex(body.as_bytes())));
+                        out.push(format!("{} {}", op, hex(format!("$SYS/{}", &body[..body.len() - per * 5]).as_bytes())));
+                    }
+                }
+            }
             // long strings around the 65,535-byte limit
             for n in [65534usize, 65535, 65536] {
                 out.push(format!("{} {}", op, hex(&vec![b'a'; n])));
@@ -172,6 +218,14 @@ pub fn gen(stream: &str, tier: &str, seed: u64) -> Vec<String> {
             out.push(format!("enc v3 publish 0 0 0 ~ 61 {}", "00".repeat(70000)));
         }
         "v3dec" | "v3poll" | "v3fault" => {
+            if stream == "v3dec" {
+                for t in lookalike_topics() {
+                    for f in topic_frames(true, &t) {
+                        out.push(format!("dec v3 {}", hex(&f)));
+                        out.push(format!("poll v3 {} - eof", hex(&f)));
+                    }
+                }
+            }
             let n = if thorough { 20_000 } else { 2_000 };
             for i in 0..n {
                 let sz = Sizes { big: i % 100 == 0 };
@@ -277,6 +331,14 @@ pub fn gen(stream: &str, tier: &str, seed: u64) -> Vec<String> {
             }
         }
         "v5dec" | "v5poll" | "v5fault" => {
+            if stream == "v5dec" {
+                for t in lookalike_topics() {
+                    for f in topic_frames(false, &t) {
+                        out.push(format!("dec v5 {}", hex(&f)));
+                        out.push(format!("poll v5 {} - eof", hex(&f)));
+                    }
+                }
+            }
             let n = if thorough { 20_000 } else { 2_000 };
             for i in 0..n {
                 let sz = Sizes { big: i % 100 == 0 };
@@ -614,10 +676,152 @@ pub fn gen(stream: &str, tier: &str, seed: u64) -> Vec<String> {
                     out.push(format!("proto {}", hex(&f)));
                 }
             }
+            // near-misses of the two legal names: padded, truncated, extended, one byte substituted
+            let levels = [0u8, 3, 4, 5, 6, 0x83, 0x84, 0x85];
+            let names = proto_names();
+            for name in &names {
+                for level in levels {
+                    let mut f = Vec::new();
+                    f.extend_from_slice(&(name.len() as u16).to_be_bytes());
+                    f.extend_from_slice(name);
+                    f.push(level);
+                    out.push(format!("proto {}", hex(&f)));
+                    // and as a whole CONNECT through both families' packet decoders
+                    if matches!(level, 3 | 4 | 5) && name.len() != 0 {
+                        let mut body = f.clone();
+                        body.extend_from_slice(&[2, 0, 10]);
+                        if level == 5 {
+                            body.push(0);
+                        }
+                        body.extend_from_slice(&[0, 1, b'c']);
+                        let mut fr = vec![0x10, body.len() as u8];
+                        fr.extend_from_slice(&body);
+                        for fam in ["v3", "v5"] {
+                            out.push(format!("dec {} {}", fam, hex(&fr)));
+                            out.push(format!("poll {} {} - eof", fam, hex(&fr)));
+                        }
+                    }
+                }
+            }
             out.push("proto 0004".into());
             out.push("proto -".into());
         }
         other => panic!("unknown stream {other}"),
     }
     out
+}
+
+/// Topic texts whose treatment depends on exact character comparison: every single/double/full
+/// replacement of the characters of "$share/" and "$SYS/" by lookalikes (same code point modulo 256,
+/// modulo 65,536, or +0x4E00), with suffix shapes that separate shared from ordinary filters, plus
+/// lookalikes of the wildcards.  Built without consulting the implementation's validators.
+pub fn lookalike_topics() -> Vec<String> {
+    let mut out = Vec::new();
+    for base in ["$share/", "$SYS/"] {
+        let chars: Vec<char> = base.chars().collect();
+        for off in [0x100u32, 0x10000] {
+            for mask in 1u32..(1 << chars.len()) {
+                if mask.count_ones() > 1 && mask != (1 << chars.len()) - 1 {
+                    continue;
+                }
+                let pre: String = chars.iter().enumerate().map(|(i, c)| if mask & (1 << i) != 0 { char::from_u32(*c as u32 + off).unwrap() } else { *c }).collect();
+                for suf in ["+", "x", "g/f", "g/+", "g/#", "/x", "abc", "+/x"] {
+                    out.push(format!("{}{}", pre, suf));
+                }
+            }
+        }
+    }
+    for w in ["\u{12b}", "\u{123}", "\u{12f}", "\u{100}", "\u{1002b}", "\u{10023}", "\u{10000}"] {
+        for shape in ["{}", "a/{}", "{}/a", "a{}", "{}a", "a/{}/b", "$share/g/{}"] {
+            out.push(shape.replace("{}", w));
+        }
+    }
+    out
+}
+
+/// SUBSCRIBE, UNSUBSCRIBE and PUBLISH frames carrying `t` (hand-built: no validator involved).
+pub fn topic_frames(v3: bool, t: &str) -> Vec<Vec<u8>> {
+    let tb = t.as_bytes();
+    let st = |out: &mut Vec<u8>| {
+        out.extend_from_slice(&(tb.len() as u16).to_be_bytes());
+        out.extend_from_slice(tb);
+    };
+    let frame = |first: u8, body: Vec<u8>| {
+        let mut f = vec![first];
+        let mut n = body.len();
+        loop {
+            let mut b = (n % 128) as u8;
+            n /= 128;
+            if n > 0 {
+                b |= 0x80;
+            }
+            f.push(b);
+            if n == 0 {
+                break;
+            }
+        }
+        f.extend(body);
+        f
+    };
+    let mut frames = Vec::new();
+    let mut b = vec![0, 1];
+    if !v3 {
+        b.push(0);
+    }
+    st(&mut b);
+    b.push(1);
+    frames.push(frame(0x82, b));
+    let mut b = vec![0, 1];
+    if !v3 {
+        b.push(0);
+    }
+    st(&mut b);
+    frames.push(frame(0xa2, b));
+    let mut b = Vec::new();
+    st(&mut b);
+    if !v3 {
+        b.push(0);
+    }
+    b.extend_from_slice(b"pl");
+    frames.push(frame(0x30, b));
+    frames
+}
+
+/// Near-misses of the two legal protocol names: padded (NUL, space, 0xff), truncated at either end,
+/// extended by any byte, any single byte substituted, doubled, case-changed.
+pub fn proto_names() -> Vec<Vec<u8>> {
+    let mut names: Vec<Vec<u8>> = Vec::new();
+    for base in [&b"MQTT"[..], b"MQIsdp"] {
+        for pad in 1..=4 {
+            for fill in [0u8, b' ', 0xff] {
+                let mut n = base.to_vec();
+                n.extend(std::iter::repeat(fill).take(pad));
+                names.push(n);
+            }
+        }
+        for k in 0..base.len() {
+            names.push(base[..k].to_vec());
+            names.push(base[k..].to_vec());
+        }
+        for pos in 0..base.len() {
+            for v in 0..=255u8 {
+                if v != base[pos] {
+                    let mut n = base.to_vec();
+                    n[pos] = v;
+                    names.push(n);
+                }
+            }
+        }
+        for v in 0..=255u8 {
+            let mut n = base.to_vec();
+            n.push(v);
+            names.push(n);
+        }
+        names.push([base, base].concat());
+        names.push(base.to_ascii_lowercase());
+        names.push(base.to_ascii_uppercase());
+    }
+    names.push(b"MQTTdp".to_vec());
+    names.push(b"MQIs".to_vec());
+    names
 }
